@@ -64,7 +64,11 @@ def run_history(ctx, seed, growth=False, stock12=False):
             from cassandra.policies import HostDistance
             cluster.set_core_connections_per_host(HostDistance.LOCAL, rng.choice([1, 2]))
             cluster.set_max_connections_per_host(HostDistance.LOCAL, 2)
-        session = cluster.connect()
+        # keyspace switches also take stream ids (one USE per connection, or none at all when the connection is already there): some
+        # histories start on a keyspace and switch - often to the keyspace they are already on - between requests
+        uses = (not growth and not stock12) and rng.random() < 0.4
+        session = cluster.connect('ks1') if (uses and rng.random() < 0.5) else cluster.connect()
+        use_stats = {'switches': 0, 'noop': 0, 'failed': 0}
         rec = Recorder(env.world)
 
         def hook_conn(conn):
@@ -91,6 +95,18 @@ def run_history(ctx, seed, growth=False, stock12=False):
         if growth:
             timeout = 600.0
         while to_send:
+            if uses and rng.random() < 0.12:
+                ks = rng.choice(['ks1', 'ks1', 'ks2'])
+                if session.keyspace == ks:
+                    use_stats['noop'] += 1
+                try:
+                    session.set_keyspace(ks)
+                    use_stats['switches'] += 1
+                except Exception:
+                    use_stats['failed'] += 1         # e.g. no usable host after an injected connection loss: nothing to judge here
+                for c in env.net.conns:
+                    hook_conn(c)
+                continue
             r = 0.0 if growth else rng.random()
             if r < 0.55:
                 uid = to_send.pop(0)
@@ -195,7 +211,7 @@ def run_history(ctx, seed, growth=False, stock12=False):
         info = {'seed': seed, 'proto': proto, 'id_space': K, 'requests': nreq, 'kinds': dict((k, sum(1 for v in kinds.values() if v == k)) for k in set(kinds.values())),
                 'conns': len(env.net.conns), 'recv': recv_count, 'delivered': delivered, 'online_checks': online['checks'],
                 'late': sum(1 for v in kinds.values() if v == 'late'), 'failed_conn': fail_at is not None, 'conserved_conns': checked_conns[0],
-                'replaced': sum(1 for c in env.net.conns if c.sim_creator == 'pool-replace')}
+                'replaced': sum(1 for c in env.net.conns if c.sim_creator == 'pool-replace'), 'use': use_stats}
         env.world.preempt = saved_preempt
         cluster.shutdown()
         env.world.settle()
@@ -312,6 +328,9 @@ def run(ctx):
         ctx.count("late_responses", info['late'])
         ctx.count("invariant_evaluations_under_lock", info['online_checks'])
         ctx.count("connections_replaced_after_orphan_threshold", info['replaced'])
+        ctx.count("keyspace_switches_between_requests", info.get('use', {}).get('switches', 0))
+        ctx.count("keyspace_switches_to_the_current_keyspace", info.get('use', {}).get('noop', 0))
+        ctx.count("keyspace_switches_that_failed_not_judged", info.get('use', {}).get('failed', 0))
         ctx.count("quiescent_connections_checked_for_conservation", info['conserved_conns'])
         if info['failed_conn']:
             ctx.count("histories_with_connection_failure")
@@ -328,7 +347,7 @@ def run(ctx):
         if not viol and len(ctx.samples) < 4 and info['late'] and info['requests'] < 10:
             ctx.sample({"info": info, "client_history": [repr(e)[:100] for e in hist[0]][:30], "node_history": [repr(e) for e in hist[1]][:40]})
     ctx.floor_distinct = 150 if ctx.quick else 5000
-    ctx.floor_counters = {"histories": 150, "responses_delivered_and_matched": 1000, "late_responses": 100, "invariant_evaluations_under_lock": 5000,
+    ctx.floor_counters = {"keyspace_switches_between_requests": 60, "keyspace_switches_to_the_current_keyspace": 20, "histories": 150, "responses_delivered_and_matched": 1000, "late_responses": 100, "invariant_evaluations_under_lock": 5000,
                           "quiescent_connections_checked_for_conservation": 100,
                           "histories_growing_the_id_set_beyond_300": 5, "histories_v1_v2_stock_id_space_all_ids_used": 5,
                           "paging_session_histories": 3, "requests_sent_while_a_paging_session_owns_a_stream": 800}
